@@ -32,7 +32,67 @@ type onceRound struct {
 	wrongMsg    atomic.Value
 }
 
+// c17slow: ONE action per run that takes seconds (3.6 s in the quick tier, 12 s in the
+// thorough tier), with callers arriving while it runs: however long the action takes,
+// nobody may return before it has completed (no "stall limit").
+func c17slow(c *core.Ctx) {
+	d := 3600 * time.Millisecond
+	if c.Tier == "thorough" {
+		d = 12 * time.Second
+	}
+	var o sync2.Once2[int64, string]
+	var inv atomic.Int64
+	completed := 0
+	var early, wrong atomic.Int64
+	var wg sync.WaitGroup
+	call := func(id int64) {
+		defer wg.Done()
+		a, b := o.Do(func() (int64, string) {
+			inv.Add(1)
+			time.Sleep(d)
+			completed = 1
+			return 77, "slow"
+		})
+		if completed != 1 {
+			early.Add(1)
+		}
+		if a != 77 || b != "slow" {
+			wrong.Add(1)
+		}
+	}
+	wg.Add(1)
+	go call(0)
+	// the first waiters arrive within milliseconds (they wait for almost the whole
+	// action), the others spread over its lifetime
+	for i := 1; i <= 8; i++ {
+		if i <= 2 {
+			time.Sleep(5 * time.Millisecond)
+		} else {
+			time.Sleep(d / 8)
+		}
+		wg.Add(1)
+		go call(int64(i))
+	}
+	if !joinOrDeadlock(c, &wg, "Once2:slow-action", fmt.Sprintf("Do calls made while an action that takes %v runs", d), nil) {
+		return
+	}
+	c.Count("rounds_slow_action", 1)
+	if n := inv.Load(); n != 1 {
+		c.Violate("Once2:invocations[slow action]", fmt.Sprintf("%d functions were invoked while the first action (taking %v) was running", n, d), nil)
+		return
+	}
+	if early.Load() > 0 || wrong.Load() > 0 {
+		c.Violate("Once2:returned-before-completion[slow action]", fmt.Sprintf("%d Do calls returned before the action (taking %v) had completed, %d returned other values than (77,\"slow\")", early.Load(), d, wrong.Load()), nil)
+		return
+	}
+	c.NonTrivial(core.Mix(c.Seed, 1717))
+}
+
 func runC17(c *core.Ctx) {
+	if c.Index == 3 && c.Build == "plain" {
+		c17slow(c)
+		return
+	}
 	r := c.R
 	rounds := r.Range(4, 20)
 	for round := 0; round < rounds; round++ {
